@@ -363,6 +363,11 @@ pub struct LinkCongestionState {
     /// Ticks the `loss_uncongestive` verdict has been held, against
     /// `LOSS_UNCONGESTIVE_RETEST_TICKS`.
     uncongestive_ticks: u32,
+    /// Whether `target_bps` has been seeded from observed throughput since
+    /// the last bootstrap. Tells "never seeded" apart from "driven to the
+    /// floor": both read `MIN_TARGET_BPS`, but only the first may jump to
+    /// the seed.
+    seeded: bool,
 }
 
 impl Default for LinkCongestionState {
@@ -391,6 +396,7 @@ impl Default for LinkCongestionState {
             backoff_entry_loss_pm: 0,
             loss_uncongestive: false,
             uncongestive_ticks: 0,
+            seeded: false,
         }
     }
 }
@@ -597,6 +603,7 @@ impl LinkCongestionState {
             self.state = CcState::Bootstrap;
             self.climb_mode = ClimbMode::Normal;
             self.target_bps = MIN_TARGET_BPS;
+            self.seeded = false;
             return;
         }
 
@@ -619,9 +626,13 @@ impl LinkCongestionState {
 
         // First non-bootstrap tick: seed the target from observed throughput
         // (or a conservative floor if no traffic yet).
-        if self.target_bps == MIN_TARGET_BPS {
+        // A target that back-offs or drains have since walked down to
+        // `MIN_TARGET_BPS` is *not* re-seeded: jumping it back to the seed
+        // would undo the decrease in a single tick (+900% from the floor).
+        if !self.seeded {
             let seed = sane_observed.max(INITIAL_TARGET_BPS);
             self.target_bps = seed.clamp(MIN_TARGET_BPS, MAX_TARGET_BPS);
+            self.seeded = true;
         }
 
         // Is this loss ours? Two independent things have to hold.
